@@ -872,12 +872,14 @@ def h_aead(spec, env):
     return {"total": i + 1}
 
 
+# The library only ever passes the six names of aioquic.quic.crypto.CIPHER_SUITES.
+# Besides those: the 192-bit siblings (same modes) and names OpenSSL does not know.
+# Names of *other* OpenSSL modes (ECB as an AEAD, CTR/GCM as a mask cipher ...) are
+# programmer misuse outside the property and are deliberately not enumerated.
 AEAD_NAMES = [b"aes-128-gcm", b"aes-256-gcm", b"chacha20-poly1305", b"aes-192-gcm",
-              b"aes-128-ecb", b"aes-256-ecb", b"chacha20", b"aes-128-ccm", b"aes-128-cbc",
-              b"", b"nope", b"aes-128-gcm\0junk", b"AES-128-GCM", b"x" * 300]
+              b"", b"nope", b"aes-128-gcm-x", b"aes-128-gcm\0junk", b"AES-128-GCM", b"x" * 300]
 HP_NAMES = [b"aes-128-ecb", b"aes-256-ecb", b"chacha20", b"aes-192-ecb",
-            b"aes-128-gcm", b"chacha20-poly1305", b"aes-128-cbc", b"aes-128-ctr",
-            b"", b"nope", b"chacha20\0junk", b"CHACHA20", b"x" * 300]
+            b"", b"nope", b"chacha20-x", b"chacha20\0junk", b"CHACHA20", b"x" * 300]
 
 
 def h_ctor(spec, env):
